@@ -462,7 +462,18 @@ def run (j : Json) : Except String Json := do
     | some r => do
       let l ← getList getNat r
       pure (some (listFn l 1)))
-  let P : DParams := { nodes := List.range n, nbrs := listFn adj [], rule := fun u v => contacts.contains (u, v),
+  -- optional age-dependent outcomes: [u, v, [b0, b1, ...]] = result of the 1st, 2nd, ... ask (last entry repeats)
+  let sched ← (match fldOpt j "sched" with
+    | none => pure []
+    | some x => getList (fun e => do
+        match ← getArr e with
+        | [u, v, bs] => pure ((← getNat u), (← getNat v), (← getList getBool bs))
+        | _ => .error "bad sched") x)
+  let rule : Nat → Node → Node → Bool := fun a u v =>
+    match sched.find? (fun e => e.1 = u ∧ e.2.1 = v) with
+    | some e => e.2.2.getD (min a (e.2.2.length - 1)) false
+    | none => contacts.contains (u, v)
+  let P : DParams := { nodes := List.range n, nbrs := listFn adj [], rule := rule,
                        recSteps := recSteps, tmin := tmin, tmax := tmax }
   let s := Discrete.run P infs recs 10000
   let holds ← (match fldOpt j "impl_inftime" with
